@@ -78,6 +78,24 @@ worker_main(struct worker * w, struct ipc_sync * IS)
 	}
 }
 
+/* is the process in interruptible sleep (and not merely waiting for a processor inside the system call)? */
+static int
+asleep(pid_t pid)
+{
+	char path[64], buf[512], * p;
+	int fd;
+	ssize_t n;
+
+	snprintf(path, sizeof(path), "/proc/%d/stat", (int)pid);
+	if ((fd = open(path, O_RDONLY)) < 0) return (0);
+	n = read(fd, buf, sizeof(buf) - 1);
+	close(fd);
+	if (n <= 0) return (0);
+	buf[n] = 0;
+	if ((p = strrchr(buf, ')')) == NULL || p[1] != ' ') return (0);
+	return (p[2] == 'S');
+}
+
 /* 1: the worker answered; 0: it is blocked in read(2) on a descriptor other than its command pipe; -1: it is gone */
 static int
 await(struct worker * w)
@@ -102,10 +120,11 @@ await(struct worker * w)
 		close(fd);
 		if (n <= 0) continue;
 		buf[n] = 0;
-		if (sscanf(buf, "%ld %lx", &sysno, &a0) == 2 && sysno == 0 && (int)a0 != w->cmd[0]) {
-			/* look twice: the call may be about to return */
+		if (sscanf(buf, "%ld %lx", &sysno, &a0) == 2 && sysno == 0 && (int)a0 != w->cmd[0] && asleep(w->pid)) {
+			/* look again: the call may be about to return */
 			pf.fd = w->rep[0]; pf.events = POLLIN; pf.revents = 0;
-			if (poll(&pf, 1, 2) == 1) continue;
+			if (poll(&pf, 1, 5) == 1) continue;
+			if (!asleep(w->pid)) continue;
 			return (0);
 		}
 	}
